@@ -80,4 +80,99 @@ Section Main.
     destruct (step sh s1 (EvRelease fin)) as [s2|] eqn:E; [|discriminate]. injection H as <-.
     destruct (release_step _ _ _ E) as (s0 & _ & _ & _ & _ & ->). reflexivity.
   Qed.
+
+  (* ---- the two ingredients, stated on their own ---- *)
+
+  (* every action of the plan is related to its durable cell and tally by SOME state of its sub-automaton *)
+  Lemma act_arel s m a :
+    Inv1 sh s m -> obj_in_shape sh (OAct a) = true ->
+    exists x, arel x (iget (s_img s) (OAct a)) (tlook (m_t m) a).
+  Proof.
+    intros I Hs. destruct a as [[|b] g i|b q i]; simpl in Hs.
+    - unfold group_of in Hs. simpl in Hs.
+      destruct (grp_get (sh_groups sh) g) as [rs|] eqn:R; [|discriminate].
+      destruct (nth_error rs i) eqn:N; [|discriminate]. apply nth_error_some_lt in N.
+      pose proof (i_groups _ _ _ I g) as GI. rewrite R in GI.
+      exact (ginv_arel rs _ _ _ _ i GI N).
+    - unfold group_of, scope_groups, block_of in Hs.
+      destruct (nth_error (sh_blocks sh) b) as [bs|] eqn:Hb; [|discriminate]. simpl in Hs.
+      destruct (grp_get (bs_groups bs) g) as [rs|] eqn:R; [|discriminate].
+      destruct (nth_error rs i) eqn:N; [|discriminate]. apply nth_error_some_lt in N.
+      destruct (any_binv _ _ _ _ _ I Hb) as (b0 & BG & _). specialize (BG g). rewrite R in BG.
+      exact (ginv_arel rs _ _ _ _ i BG N).
+    - unfold seq_of, block_of in Hs.
+      destruct (nth_error (sh_blocks sh) b) as [bs|] eqn:Hb; [|discriminate].
+      destruct (nth_error (bs_seqs bs) q) as [rs|] eqn:R; [|discriminate].
+      destruct (nth_error rs i) eqn:N; [|discriminate]. apply nth_error_some_lt in N.
+      destruct (any_binv _ _ _ _ _ I Hb) as (b0 & _ & BL & BQ).
+      destruct (nth_error (b_seqs b0) q) as [x|] eqn:Qx.
+      + exact (qinv_arel rs x _ _ _ i (BQ q rs x R Qx) N).
+      + apply nth_error_None in Qx. apply nth_error_some_lt in R. lia.
+  Qed.
+
+  (* image_invariant: the durable image of EVERY reachable state satisfies the generalisation of `consistent`
+     in which objects in progress may be Running: an action that is not Running is settled (NotStarted with
+     no attempt, or Completed / Failed with attempts and Completed exactly when the last one has no error);
+     a sequence durably Completed has only Completed actions; a sequence durably Failed has exactly one
+     Failed action, every earlier one Completed, every later one untouched; the plan is never Stopped. *)
+  Theorem image_invariant tr s :
+    run sh init tr = Some s ->
+    (forall a, obj_in_shape sh (OAct a) = true ->
+       c_st (iget (s_img s) (OAct a)) <> Running -> settled (iget (s_img s) (OAct a)))
+    /\ (forall b q rs, seq_of sh b q = Some rs ->
+          (ist (s_img s) (OSeq b q) = Completed ->
+             forall i, i < length rs -> c_st (iget (s_img s) (OAct (ASeq b q i))) = Completed)
+          /\ (ist (s_img s) (OSeq b q) = Failed ->
+               exists j, j < length rs
+                 /\ (forall i, i < j -> c_st (iget (s_img s) (OAct (ASeq b q i))) = Completed)
+                 /\ c_st (iget (s_img s) (OAct (ASeq b q j))) = Failed
+                 /\ (forall i, j < i -> i < length rs -> iget (s_img s) (OAct (ASeq b q i)) = cell0)))
+    /\ ist (s_img s) OPlan <> Stopped.
+  Proof.
+    intro H. destruct (run_Inv _ _ H) as [I1 _]. split; [|split].
+    - intros a Hs NR. destruct (act_arel _ _ _ I1 Hs) as [x R].
+      destruct x; simpl in R.
+      + apply R.
+      + destruct R as [E _]. rewrite E in NR. elim NR. reflexivity.
+      + destruct R as [E _]. rewrite E in NR. elim NR. reflexivity.
+      + destruct R as [E _]. rewrite E in NR. elim NR. reflexivity.
+      + destruct R as (_ & E & _). rewrite E in NR. elim NR. reflexivity.
+      + destruct R as (P & E & _). rewrite E. unfold settled. destruct v; simpl; auto.
+    - intros b q rs Hq. unfold seq_of, block_of in Hq.
+      destruct (nth_error (sh_blocks sh) b) as [bs|] eqn:Hb; [|discriminate].
+      destruct (any_binv _ _ _ _ _ I1 Hb) as (b0 & _ & BL & BQ).
+      destruct (nth_error (b_seqs b0) q) as [x|] eqn:Qx.
+      2:{ apply nth_error_None in Qx. apply nth_error_some_lt in Hq. lia. }
+      specialize (BQ q rs x Hq Qx). unfold qcf in BQ.
+      destruct x as [|j y|v|v]; simpl in BQ.
+      + destruct BQ as [E _]. rewrite E. split; discriminate.
+      + destruct BQ as [E _]. rewrite E. split; discriminate.
+      + destruct BQ as [E _]. rewrite E. split; discriminate.
+      + destruct BQ as [E F]. rewrite E. destruct v; simpl in *; (split; [|]); try discriminate.
+        * intros _ i Hi. apply (F i Hi).
+        * intros _. destruct F as (j & Lj & F1 & F2 & F3). exists j. split; [exact Lj|]. split; [|split].
+          -- intros i Hi. apply (F1 i Hi).
+          -- apply F2.
+          -- intros i Hi Hi'. apply (F3 i Hi Hi').
+    - apply (i_plan _ _ _ I1).
+  Qed.
+
+  (* final_sound: on every image reachable at PEnd, what Final.final (the transcription of finalStates) returns -
+     which is the only terminal plan write the automaton admits - is the status and reason the property asks for:
+     the reason is the first stage, in the order pre, continuous, block, post, deferred, whose failure the trace
+     shows (MonC04.shown_reason), and it is FRUnknown exactly when the status is Completed. *)
+  Theorem final_sound tr s s0 fin :
+    run sh init tr = Some s -> eps_star sh s s0 -> s_ph s0 = PEnd ->
+    is_terminal (ist (s_img s0) OPlan) = true ->
+    image_agrees (all_objs sh) (s_img s0) (s_reason s0) fin = true ->
+    (ist (s_img s0) OPlan, s_reason s0) = final sh (ist (s_img s0))
+    /\ snd (final sh (ist (s_img s0))) = shown_reason sh (m_t (mon_after tr)) fin
+    /\ (fst (final sh (ist (s_img s0))) = Completed <-> snd (final sh (ist (s_img s0))) = FRUnknown).
+  Proof.
+    intros H Hs Hp Ht Ha. destruct (eps_star_Inv _ _ _ _ Hs (run_Inv _ _ H)) as [I1 I2].
+    split; [|split].
+    - eapply plan_is_final; eauto.
+    - symmetry. eapply C04Release.final_sound; eauto.
+    - apply final_completed_iff.
+  Qed.
 End Main.
